@@ -535,10 +535,11 @@ def _cls(ctype: int, afi: int, named: bool = False) -> str:
 def value_alphabet(ctype: int, afi: int):
     """(valid boundary values, first value beyond the component's range)"""
     top = fs.max_value(ctype, afi)
+    # (bitmask components: the first value with a bit outside the defined ones - RFC 8955 4.2.2.9 / 4.2.2.12 want those bits zero)
     if ctype == fs.TCP_FLAGS:
-        return [0x01, 0x12, 0x80, 0x100, 0x101], None
+        return [0x01, 0x12, 0x80, 0x100, 0x101], top + 1
     if ctype == fs.FRAGMENT:
-        return [0x01, 0x02, 0x04, 0x08, 0x0A], None
+        return [0x01, 0x02, 0x04, 0x08, 0x0A], top + 1
     vals = sorted({v for v in (0, 255, 256, 65535, 65536, top) if v <= top})
     return vals, top + 1
 
